@@ -21,3 +21,9 @@ CLAIMED['C03'] = ('Derived session state (Session::getState/getInfo) is proved e
 CLAIMED['C07'] = ('Operation-start guards (usage flag, allowed-mechanism check, access matrix, operation gate) of the keyed *Init functions are postconditions of the real guard prefixes, discharged for all session states, object flags and mechanisms.', _NOTE, _TECH, 'DESIGN.md 4/C07')
 CLAIMED['C08'] = ('The generic attribute rule engine P11Attribute::update and 23 boolean updateAttr overrides are proved against the PKCS#11 footnote rules for all check masks, operations and values.', _NOTE, _TECH, 'DESIGN.md 4/C08')
 CLAIMED['C12'] = ('Operation gate of every keyed *Init (CKR_OPERATION_ACTIVE without effect), Session::resetOp, and the output-length protocol of P11Attribute::retrieve are discharged for all inputs.', _NOTE, _TECH, 'DESIGN.md 4/C12')
+
+CLAIMED['C05'] = ('The scalar and byte-string codecs of File.cpp are proved against LITERAL format specifications (big-endian 8-byte fields, 0xFF/0x00 booleans, length-prefixed byte strings) over a ghost file with arbitrary content, including decode(encode(x)) = x; restart / golden-directory clauses are outside this family and not claimed.', _NOTE + ' libc stdio is a ghost file (env/stdio_ghost.c).', _TECH, 'DESIGN.md 4/C05')
+CLAIMED['C09'] = ('SoftHSM::CreateObject (which serves C_CreateObject and every generate/unwrap/derive) is proved to destroy whatever it created on every failing path and to register exactly one handle on success; templates of <= 3 entries.', _NOTE, _TECH, 'DESIGN.md 4/C09')
+CLAIMED['C11'] = ('HandleManager (issue, lookup, every purge) and SessionManager are proved over every table of bounded size built through the real add functions, with the witness handle ranging over all 64-bit values: exactly the affected handles die, all others keep working, handle numbers strictly increase.', _NOTE + ' Bounded tables (2 entries quick / 3 thorough), harness mode (no DFCC frame check) for container-holding units.', _TECH, 'DESIGN.md 4/C11')
+CLAIMED['C13'] = ('PKCS#7 pad/unpad and the RFC 3394 zero pad are proved (format, inverse, rejection of malformed blobs, memory safety) for all blobs of 0..32 bytes and both block sizes; primitive outputs (AES key wrap, RSA, ECDH) are assumed.', _NOTE, _TECH, 'DESIGN.md 4/C13')
+CLAIMED['C17'] = ('Memory safety and allocation-request obligations for the parsing / length-arithmetic units only (File codecs over arbitrary file content, pad/unpad, P11Attribute::retrieve copy-out, symmetric size arithmetic); the whole-library claim of the property is not made.', _NOTE, _TECH, 'DESIGN.md 4/C17')
